@@ -29,6 +29,7 @@ from acryo._types import nm
 from acryo._dask import compute, DaskTaskList
 from acryo.loader import _misc
 from acryo.backend import Backend, AnyArray
+from acryo.pipe._classes import ImageProvider
 
 if TYPE_CHECKING:
     from dask.delayed import Delayed
@@ -452,9 +453,14 @@ class LoaderGroup(Generic[_K, _L]):
         elif isinstance(mask, np.ndarray):
             _mask = mask
             output_shape = mask.shape
+        elif isinstance(mask, ImageProvider):
+            scales = {loader.scale for _, loader in self}
+            if len(scales) != 1:
+                raise ValueError("Loaders must have the same scale to provide a mask.")
+            _mask = mask(scales.pop())
+            output_shape = _mask.shape
         else:
-            _mask = 1
-            output_shape = None
+            raise TypeError(f"Invalid mask type: {type(mask)}")
 
         if n_set <= 0:
             raise ValueError("'n_set' must be positive.")
